@@ -175,6 +175,12 @@ def templates(x, f):
         ("f(x,idx,1.0)", lambda: f(x, idx, 1.0)),
         ("f(x,(2,2))", lambda: f(x, (2, 2))),
         ("f(x[0],x[0])", lambda: f(x0, x0)),
+        ("f(x[0])", lambda: f(x0)),
+        ("f(x[0],x[0],x[0])", lambda: f(x0, x0, x0)),
+        ("f(x,axis=0)", lambda: f(x, axis=0)),
+        ("f(x,float)", lambda: f(x, float)),
+        ("f(x,'q0')", lambda: f(x, ";;")),
+        ("f(x,x,'q0')", lambda: f(x, x, ";;")),
         ("f((2,2),like=x)", lambda: f((2, 2), like=x)),
         ("f(2,like=x)", lambda: f(2, like=x)),
         ("f([1.,2.],like=x)", lambda: f([1.0, 2.0], like=x)),
@@ -225,6 +231,10 @@ def probe_unsupported(f, label, ctx, fails, reached):
     import numpoly
 
     A, Pm = float_and_poly()
+    if "recfunctions" in getattr(f, "__module__", ""):
+        # these functions work on structured arrays: the plain counterpart of a polynomial is a
+        # structured array with the same fields
+        A = numpy.array(Pm.values)
     n_valid = 0
     for (tname, plain), (_, poly), (_, probe) in zip(templates(A.copy(), f), templates(Pm, f),
                                                      templates(Probe(), f)):
